@@ -55,16 +55,16 @@ type cachedS struct {
 }
 
 type model15 struct {
-	cfg      *gen.Cfg
-	up       bool
-	pdefs    map[string]pdef
-	pcache   map[string]cachedP
-	sdefs    map[string]sdef
-	scache   map[string]cachedS
-	env      map[string]string
-	armed    map[string][]int
-	nextID   int
-	fnEvals  map[string]int
+	cfg     *gen.Cfg
+	up      bool
+	pdefs   map[string]pdef
+	pcache  map[string]cachedP
+	sdefs   map[string]sdef
+	scache  map[string]cachedS
+	env     map[string]string
+	armed   map[string][]int
+	nextID  int
+	fnEvals map[string]int
 }
 
 func newModel15(cfg *gen.Cfg) *model15 {
